@@ -294,21 +294,52 @@ theorem handshake_run_reduces (C : WireCodec V) (A : Auth α) (w : World V) {hsU
     obtain ⟨t', hlen, h2⟩ := ih h1 hrun.2
     exact ⟨st' :: t', by simp [hlen], h2⟩
 
-/-- the two initial states are related: every link still has its handshake in front -/
-theorem hrel_init (A : Auth α) (n : Nat) (first : Nat → Nat) (a : α) (hsUp hsDown : Nat → Bytes)
-    (hup : ∀ c, ∃ lines last, hsUp c = Spec.unlines (lines ++ [last]) ∧ HandshakeOK A a lines last)
-    (hdown : ∀ c, ∃ lines last, hsDown c = Spec.unlines (lines ++ [last]) ∧ HandshakeOK A a lines last) :
-    HRel A hsUp hsDown (BNet.initH n first a hsUp hsDown : BNet V α) (BNet.init n first a) := by
-  refine ⟨rfl, rfl, rfl, rfl, ?_, ?_⟩
-  · intro c
-    exact Or.inl ⟨⟨Or.inr rfl, rfl, rfl, rfl, rfl, hup c⟩, by simp [BNet.initH, BNet.init], rfl, rfl, rfl⟩
-  · intro c
-    exact Or.inl ⟨⟨Or.inl rfl, rfl, rfl, rfl, rfl, hdown c⟩, by simp [BNet.initH, BNet.init], rfl, rfl, rfl⟩
+/-- a direction of a link at the synthetic start: already binary (`hs = []`), or an acceptable remaining handshake -/
+def HsOK (A : Auth α) (a : α) (hs : Bytes) : Prop :=
+  hs = [] ∨ ∃ lines last, hs = Spec.unlines (lines ++ [last]) ∧ HandshakeOK A a lines last
 
 theorem unlines_ne_nil (lines : List Bytes) (last : Bytes) : Spec.unlines (lines ++ [last]) ≠ [] := by
   intro e
   have : (Spec.unlines (lines ++ [last])).length = 0 := by rw [e]; rfl
   simp [Spec.unlines] at this
+
+/-- the two initial states are related: a link either still has its handshake in front, or is binary on both sides
+(the authenticator state of a binary receiver plays no role) -/
+theorem hrel_init (A : Auth α) (n : Nat) (first : Nat → Nat) (a0 : α) (aUp aDown : Nat → α) (hsUp hsDown : Nat → Bytes)
+    (hup : ∀ c, HsOK A (aUp c) (hsUp c)) (hdown : ∀ c, HsOK A (aDown c) (hsDown c)) :
+    HRel A hsUp hsDown (BNet.initH n first aUp aDown hsUp hsDown : BNet V α) (BNet.init n first a0) := by
+  have idle : ∀ (cl : Bool) (a : α) (fb : Bool),
+      Framed ({ St.init cl a with authenticated := true, firstByte := fb } : St α) :=
+    fun cl a fb => Or.inl ⟨rfl, by show (0 : Nat) < 16; omega⟩
+  refine ⟨rfl, rfl, rfl, rfl, ?_, ?_⟩
+  · intro c
+    rcases hup c with h | ⟨lines, last, hhs, hok⟩
+    · refine Or.inr ⟨⟨?_, rfl, ?_, idle _ _ _, ?_⟩, ?_⟩
+      · simp [BNet.initH, h]
+      · simp only [BNet.initH, h, List.isEmpty_nil, if_true]; exact idle _ _ _
+      · simp [BNet.initH, BNet.init, h, St.init]
+      · simp [BNet.initH, BNet.init, h]
+    · have hne : (hsUp c).isEmpty = false := by
+        rw [hhs]; cases hx : Spec.unlines (lines ++ [last]) with
+        | nil => exact absurd hx (unlines_ne_nil lines last)
+        | cons _ _ => rfl
+      refine Or.inl ⟨?_, by simp [BNet.initH, BNet.init], rfl, rfl, rfl⟩
+      simp only [BNet.initH, hne]
+      exact ⟨Or.inr rfl, rfl, rfl, rfl, rfl, lines, last, hhs, hok⟩
+  · intro c
+    rcases hdown c with h | ⟨lines, last, hhs, hok⟩
+    · refine Or.inr ⟨⟨?_, rfl, ?_, idle _ _ _, ?_⟩, ?_⟩
+      · simp [BNet.initH, h]
+      · simp only [BNet.initH, h, List.isEmpty_nil, if_true]; exact idle _ _ _
+      · simp [BNet.initH, BNet.init, h, St.init]
+      · simp [BNet.initH, BNet.init, h]
+    · have hne : (hsDown c).isEmpty = false := by
+        rw [hhs]; cases hx : Spec.unlines (lines ++ [last]) with
+        | nil => exact absurd hx (unlines_ne_nil lines last)
+        | cons _ _ => rfl
+      refine Or.inl ⟨?_, by simp [BNet.initH, BNet.init], rfl, rfl, rfl⟩
+      simp only [BNet.initH, hne]
+      exact ⟨Or.inl rfl, rfl, rfl, rfl, rfl, lines, last, hhs, hok⟩
 
 /-- quiescence of the state with handshakes is quiescence of its twin: a wire that still starts with a handshake is
 not empty -/
